@@ -9,7 +9,7 @@ use crate::driver::Driver;
 use crate::model::grammar::{self, Decl, Layout, Node};
 use crate::pool::{CaseOutcome, WorkerCtx};
 use crate::spaces::ast;
-use crate::subjects::delta::delta_front;
+use crate::subjects::delta::delta_front_mode;
 use crate::subjects::trees;
 use serde_json::{Value, json};
 
@@ -235,7 +235,7 @@ pub fn judge(module: &[Decl], text: &str, family: &str, desc: impl Fn() -> Value
 	let d = desc().to_string().into_bytes();
 	let expected = grammar::module_node(module);
 	let outcome = w.run_case(&d, || {
-		let front = delta_front(text.as_bytes(), true);
+		let front = delta_front_mode(text.as_bytes(), 1);
 		let alpha = trees::alpha_parse(text);
 		(front, alpha.tree, alpha.error_codes)
 	});
@@ -340,7 +340,7 @@ fn judge_corpus(path: &str, w: &mut WorkerCtx)
 	let desc = || json!({"corpus_file": path});
 	let d = desc().to_string().into_bytes();
 	let outcome = w.run_case(&d, || {
-		let front = delta_front(text.as_bytes(), true);
+		let front = delta_front_mode(text.as_bytes(), 1);
 		let alpha = trees::alpha_parse(&text);
 		(front, alpha.tree, alpha.error_codes)
 	});
